@@ -48,6 +48,7 @@ def header_term(msgtype, ser, flags, seq, dlen, alen, corr):
 
 @R.contract
 class SendingMessageInit(Contract):
+    local_positions = {"annotation_data": 4}
     no_join = True      # proved path by path (the joined, disjunctive states make the concatenation obligations time out)
     name = "Pyro5.protocol.SendingMessage.__init__"
     props = ("C06", "C01")
@@ -173,7 +174,7 @@ class SendingMessageInit(Contract):
     def loop_inv(self, k, E, old, st, a):
         W = a["__W"]
         j = st.ghost["idx0"].e
-        ad = st.env["annotation_data"]
+        ad = E.local(st, "annotation_data")
         i = z3.Int("i!inv")
         return [("0<=j<=n", z3.And(0 <= j, j <= W.n)),
                 ("joined==tile(j)", ad.joined == W.tile(j)),
@@ -229,6 +230,7 @@ def new_receiving_message(st, name="msg", parsed=True):
 
 @R.contract
 class AddPayload(Contract):
+    local_positions = {"i": 0}
     name = "Pyro5.protocol.ReceivingMessage.add_payload"
     props = ("C06", "C01")
     raises = {"Pyro5.errors.ProtocolError": "x_protocol", "builtins.AssertionError": "x_assert",
@@ -308,7 +310,7 @@ class AddPayload(Contract):
 
     def loop_inv(self, k_, E, old, st, a):
         m, P, A, D, n, keys, vals = self._views(old, st, a)
-        i = st.env["i"].e
+        i = E.local(st, "i").e
         k = z3.Int("k!inv")
         def nlog(s_):
             return s_.get(s_.get(m, "annotations"), "n").e
